@@ -10,6 +10,7 @@ import Vise.Driver.Engine
 import Vise.Driver.Db
 import Vise.Driver.Pg
 import Vise.Driver.Asm
+import Vise.Driver.Crash
 
 open Vise.Driver
 
@@ -24,6 +25,7 @@ def main (args : List String) : IO UInt32 := do
   | ["db"] => loop stdin stdout () dbStep; return 0
   | ["pg"] => loop stdin stdout () pgStep; return 0
   | ["asm"] => loop stdin stdout () asmStep; return 0
+  | ["crash"] => loop stdin stdout () crashStep; return 0
   | _ =>
     IO.eprintln "usage: visemodel <suite>"
     return 2
